@@ -2,7 +2,7 @@ SPECIFICATION Spec
 CONSTANTS
   VCodec = "avc"
   ACodec = "opus"
-  MaxPub = 10
+  MaxPub = 9
   MaxVer = 3
   VKinds <- AvcAll
   DtPool <- Dt5
